@@ -17,3 +17,50 @@ package commitgraph
 //gvc:  opt frame args
 //gvc:  sink WriteUint64 requires generation: commitData.Generation <= 0x3fffffff ==> unixTime >> 34 == commitData.Generation
 //gvc:end
+
+// GetCommitDataByIndex against the commit-graph file format (git
+// Documentation/gitformat-commit-graph.txt, commit-graph.c fill_commit_in_graph
+// / fill_commit_graph_info): for position i in this file's CDAT chunk, after
+// the tree id come two big-endian parent words and one 64-bit word holding the
+// generation number in its top 30 bits and the commit time in the low 34; the
+// corrected commit date (generation v2) is that time plus the GDA2 word for i,
+// or, when the word's top bit is set, plus the 64-bit GDO2 entry the other 31
+// bits index (8 bytes per entry); octopus parents are the EDGE words from the
+// position parent2 names up to the first word with the top bit set.
+//gvc:func (*fileIndex).GetCommitDataByIndex
+//gvc:  props C51
+//gvc:  theory int
+//gvc:  opt coarse
+//gvc:  opt frame args
+//gvc:  results data err
+//gvc:  requires wf: fi.reader != nil && fi.objSize == 20 && fi.offsets[CommitDataChunk] >= 0 && fi.offsets[CommitDataChunk] <= 0x1000000000000 && fi.offsets[GenerationDataChunk] >= 0 && fi.offsets[GenerationDataChunk] <= 0x1000000000000 && fi.offsets[GenerationDataOverflowChunk] >= 0 && fi.offsets[GenerationDataOverflowChunk] <= 0x1000000000000 && fi.offsets[ExtraEdgeListChunk] >= 0 && fi.offsets[ExtraEdgeListChunk] <= 0x1000000000000 && fi.sizes[ExtraEdgeListChunk] >= 0 && fi.sizes[GenerationDataOverflowChunk] >= 0
+//gvc:  let i = idx - fi.minimumNumberOfHashes
+//gvc:  let base = fi.offsets[CommitDataChunk] + (idx - fi.minimumNumberOfHashes) * 36
+//gvc:  let word = spec_be64(fi.reader.#data, fi.offsets[CommitDataChunk] + (idx - fi.minimumNumberOfHashes) * 36 + 28)
+//gvc:  let gda = spec_be32(fi.reader.#data, fi.offsets[GenerationDataChunk] + (idx - fi.minimumNumberOfHashes) * 4)
+//gvc:  let p1 = spec_be32(fi.reader.#data, fi.offsets[CommitDataChunk] + (idx - fi.minimumNumberOfHashes) * 36 + 20)
+//gvc:  let p2 = spec_be32(fi.reader.#data, fi.offsets[CommitDataChunk] + (idx - fi.minimumNumberOfHashes) * 36 + 24)
+//gvc:  loop 1 invariant edges: len(parentIndexes) >= 1 && pos >= 0 && offset == fi.offsets[ExtraEdgeListChunk] + 4 * pos && len(buf) == 4
+//gvc:  loop 1 invariant walk: p2 >= 0x80000000 && pos == p2 - 0x80000000 + len(parentIndexes) - 1 && parentIndexes[0] == p1 % 0x80000000
+//gvc:  loop 1 invariant read: forall(k, 1, len(parentIndexes), parentIndexes[k] == spec_be32(fi.reader.#data, fi.offsets[ExtraEdgeListChunk] + 4 * (p2 - 0x80000000 + k - 1)) % 0x80000000 && spec_be32(fi.reader.#data, fi.offsets[ExtraEdgeListChunk] + 4 * (p2 - 0x80000000 + k - 1)) < 0x80000000)
+//gvc:  ensures noparent: err == nil && idx >= fi.minimumNumberOfHashes && p2 == 0x70000000 && p1 == 0x70000000 ==> len(data.ParentIndexes) == 0
+//gvc:  ensures oneparent: err == nil && idx >= fi.minimumNumberOfHashes && p2 == 0x70000000 && p1 != 0x70000000 ==> len(data.ParentIndexes) == 1 && data.ParentIndexes[0] == p1 % 0x80000000
+//gvc:  ensures twoparents: err == nil && idx >= fi.minimumNumberOfHashes && p2 != 0x70000000 && p2 < 0x80000000 ==> len(data.ParentIndexes) == 2 && data.ParentIndexes[0] == p1 % 0x80000000 && data.ParentIndexes[1] == p2
+//gvc:  ensures octopus: err == nil && idx >= fi.minimumNumberOfHashes && p2 >= 0x80000000 ==> len(data.ParentIndexes) >= 2 && data.ParentIndexes[0] == p1 % 0x80000000 && forall(k, 1, len(data.ParentIndexes), data.ParentIndexes[k] == spec_be32(fi.reader.#data, fi.offsets[ExtraEdgeListChunk] + 4 * (p2 - 0x80000000 + k - 1)) % 0x80000000)
+//gvc:  ensures octopusend: err == nil && idx >= fi.minimumNumberOfHashes && p2 >= 0x80000000 ==> spec_be32(fi.reader.#data, fi.offsets[ExtraEdgeListChunk] + 4 * (p2 - 0x80000000 + len(data.ParentIndexes) - 2)) >= 0x80000000 && forall(k, 1, len(data.ParentIndexes) - 1, spec_be32(fi.reader.#data, fi.offsets[ExtraEdgeListChunk] + 4 * (p2 - 0x80000000 + k - 1)) < 0x80000000)
+//gvc:  ensures gen: err == nil && idx >= fi.minimumNumberOfHashes ==> data.Generation == word / 17179869184
+//gvc:  ensures genv2inline: err == nil && idx >= fi.minimumNumberOfHashes && fi.hasGenerationV2 && gda < 0x80000000 ==> data.GenerationV2 == word % 17179869184 + gda
+//gvc:  ensures genv2overflow: err == nil && idx >= fi.minimumNumberOfHashes && fi.hasGenerationV2 && gda >= 0x80000000 ==> data.GenerationV2 == (word % 17179869184 + spec_be64(fi.reader.#data, fi.offsets[GenerationDataOverflowChunk] + 8 * (gda - 0x80000000))) % 18446744073709551616
+//gvc:  ensures genv1only: err == nil && idx >= fi.minimumNumberOfHashes && !fi.hasGenerationV2 ==> data.GenerationV2 == 0
+//gvc:end
+
+// getHashesFromIndexes only reads the file (and the parent graphs): it leaves
+// the index untouched (frame).
+//gvc:func (*fileIndex).getHashesFromIndexes
+//gvc:  props C51
+//gvc:  theory int
+//gvc:  opt coarse
+//gvc:  opt frame args
+//gvc:  results hashes err
+//gvc:  loop 1 invariant pos: it1 >= 0
+//gvc:end
